@@ -40,12 +40,15 @@ func dumpResponse(res *http.Response) reply {
 	return reply{Status: res.StatusCode, Dump: b.String(), Body: string(body)}
 }
 
-func dialProxy(addr string, useTLS bool) (net.Conn, error) {
+// exchangeTimeout bounds one client exchange.
+const exchangeTimeout = 8 * time.Second
+
+func dialProxy(addr string, useTLS bool, timeout time.Duration) (net.Conn, error) {
 	c, err := net.DialTimeout("tcp4", addr, 3*time.Second)
 	if err != nil {
 		return nil, err
 	}
-	c.SetDeadline(time.Now().Add(8 * time.Second))
+	c.SetDeadline(time.Now().Add(timeout))
 	if useTLS {
 		tc := tls.Client(c, &tls.Config{InsecureSkipVerify: true}) //nolint:gosec // scripted loopback peer
 		if err := tc.Handshake(); err != nil {
@@ -59,7 +62,11 @@ func dialProxy(addr string, useTLS bool) (net.Conn, error) {
 
 // proxyGet sends an absolute-form GET through the proxy at addr.
 func proxyGet(addr string, useTLS bool, target, path, proxyAuth string) reply {
-	c, err := dialProxy(addr, useTLS)
+	return proxyGetT(addr, useTLS, target, path, proxyAuth, exchangeTimeout)
+}
+
+func proxyGetT(addr string, useTLS bool, target, path, proxyAuth string, timeout time.Duration) reply {
+	c, err := dialProxy(addr, useTLS, timeout)
 	if err != nil {
 		return reply{Err: err.Error()}
 	}
@@ -82,7 +89,21 @@ func proxyGet(addr string, useTLS bool, target, path, proxyAuth string) reply {
 
 // proxyConnectGet opens a CONNECT tunnel to target through the proxy and sends a GET inside it.
 func proxyConnectGet(addr string, useTLS bool, target, path, proxyAuth string) (connect, inner reply) {
-	c, err := dialProxy(addr, useTLS)
+	return proxyConnectGetT(addr, useTLS, target, path, proxyAuth, false, exchangeTimeout)
+}
+
+// brConn reads through the reader that parsed the CONNECT response.
+type brConn struct {
+	net.Conn
+	r *bufio.Reader
+}
+
+func (b *brConn) Read(p []byte) (int, error) { return b.r.Read(p) }
+
+// proxyConnectGetT is proxyConnectGet with a deadline; with innerTLS the client starts TLS inside
+// the tunnel (the proxy intercepts it when MITM is on) and sends the GET over it.
+func proxyConnectGetT(addr string, useTLS bool, target, path, proxyAuth string, innerTLS bool, timeout time.Duration) (connect, inner reply) {
+	c, err := dialProxy(addr, useTLS, timeout)
 	if err != nil {
 		return reply{Err: err.Error()}, reply{}
 	}
@@ -105,7 +126,20 @@ func proxyConnectGet(addr string, useTLS bool, target, path, proxyAuth string) (
 		return dumpResponse(res), reply{}
 	}
 	connect = reply{Status: 200, Dump: res.Proto + " " + res.Status + "\n"}
-	fmt.Fprintf(c, "GET %s HTTP/1.1\r\nHost: %s\r\nUser-Agent: c19\r\nConnection: close\r\n\r\n", path, target)
+	if innerTLS {
+		host, _, _ := net.SplitHostPort(target)
+		tc := tls.Client(&brConn{c, br}, &tls.Config{InsecureSkipVerify: true, ServerName: host}) //nolint:gosec // scripted loopback peer
+		if err := tc.Handshake(); err != nil {
+			return connect, reply{Err: "tls inside the tunnel: " + err.Error()}
+		}
+		c, br = tc, bufio.NewReader(tc)
+	}
+	innerAuth := ""
+	if innerTLS && proxyAuth != "" {
+		// an intercepted request passes the proxy's authentication like any other request
+		innerAuth = "Proxy-Authorization: " + proxyAuth + "\r\n"
+	}
+	fmt.Fprintf(c, "GET %s HTTP/1.1\r\nHost: %s\r\n%sUser-Agent: c19\r\nConnection: close\r\n\r\n", path, target, innerAuth)
 	res2, err := http.ReadResponse(br, &http.Request{Method: "GET"})
 	if err != nil {
 		return connect, reply{Err: err.Error()}
